@@ -95,6 +95,8 @@ def run_B(prop, tier, seed):
             return None
         raise
     common.use_repo()
+    import warnings
+    warnings.simplefilter("ignore")
     ctx = common.Ctx(prop, tier, seed)
     mod.run(ctx)
     return ctx
